@@ -1173,4 +1173,51 @@ theorem C04_roundtrip_total (quirk : Bool) (unmap : Label → Option Label) (h :
   obtain ⟨rs', st', hfrom⟩ := C04_copy_total (fromDaoParams quirk unmap) st.out hwf' droots hd
   exact ⟨rs', st', by unfold roundTrip; simp only [hto']; exact hfrom⟩
 
+
+/-! ## F-C04-2: id collisions of temporary parent DAOs (nondeterministic at run time) -/
+
+/-- without a collision the result heap is untouched -/
+theorem staleParent_nil (out : Heap) : staleParent out [] = out := rfl
+
+/-- **C04_stale_parent_needs_two.** With at most one object below an alternatively mapped DAO in the result there is
+no admissible collision: `from_dao` is deterministic and the trigger of F-C04-2 is off, so `C04_roundtrip_partial`
+describes today's code exactly. -/
+theorem C04_stale_parent_needs_two (out : Heap) (h : (subSlots out).length ≤ 1) :
+    staleChoices out [] (subSlots out) = [[]] ∧ trigStaleParent out = false := by
+  have hc : staleChoices out [] (subSlots out) = [[]] := by
+    cases hs : subSlots out with
+    | nil => rfl
+    | cons j rest =>
+      cases rest with
+      | nil => simp [staleChoices]
+      | cons k rest' => rw [hs] at h; simp at h
+  exact ⟨hc, by simp [trigStaleParent, hc]⟩
+
+def camNode (scal : String) (refs : List Ref) : Node :=
+  { lab := ⟨"AuxCamera", scal⟩, kind := .sub, view := noView,
+    tabs := ["AuxCameraDAO", "AuxSensorMappingDAO"], fields := [⟨false, ""⟩, ⟨false, "l"⟩, ⟨false, ""⟩], refs := refs,
+    pf := (1, 2) }
+
+def leafNode (cls scal : String) : Node :=
+  { lab := ⟨cls, scal⟩, kind := .plain, view := noView, tabs := [cls ++ "DAO"], fields := [], refs := [] }
+
+/-- result heap of `AuxRig([a], main=b)`: two cameras with their own names, mounts and tags (finding F-C04-2's witness) -/
+def cexRig : Heap := [
+  { lab := ⟨"AuxRig", ""⟩, kind := .plain, view := noView, tabs := ["AuxRigDAO"], fields := [⟨false, "s"⟩, ⟨false, ""⟩],
+    refs := [.many [1], .one 4] },
+  camNode "name=sa,resolution=i1" [.one 2, .many [3], .none],
+  leafNode "AuxFrame" "name=sf1", leafNode "AuxTag" "text=st1",
+  camNode "name=sb,resolution=i2" [.one 5, .many [6, 7], .one 2],
+  leafNode "AuxFrame" "name=sf2", leafNode "AuxTag" "text=st2", leafNode "AuxTag" "text=st3"]
+
+/-- **C04_cex_stale_parent.** (test on the witness) When the second camera's temporary parent DAO is allocated at the
+address of the first one's, it comes back with the FIRST camera's mount and tags (slots 2, [3]) instead of its own (5, [6, 7]) and keeps
+its own housing — and likewise the first camera's name (string surgery is not kernel-evaluable, so the label is
+checked by the correspondence only): not isomorphic to the input. -/
+theorem C04_cex_stale_parent :
+    trigStaleParent cexRig = true ∧ staleChoices cexRig [] (subSlots cexRig) = [[], [(4, 1)]] ∧
+    ((staleParent cexRig [(4, 1)])[4]?).map (·.refs) = some [.one 2, .many [3], .one 2] ∧
+    (cexRig[4]?).map (·.refs) = some [.one 5, .many [6, 7], .one 2] := by decide
+
+
 end KrroodVerif.Dao
